@@ -802,6 +802,8 @@ def own_args(ctx: Ctx) -> RuleResult:
     for f in o.reachable():
         for n in iter_own_nodes(f.node):
             if isinstance(n, ast.Call) and isinstance(n.func, ast.Attribute) and n.func.attr == "force_set":
+                if id(n) in o.splice_nodes:
+                    continue  # description time: the target is the table of the DAG being built, not a run's results
                 sites.append((f, n))
     r.require(len(sites) >= 1, "no force_set on a run path found")
     for f, n in sites:
